@@ -144,19 +144,11 @@ def _combined_literal(src, tree, fn):
 
 
 def _tolerances(repo, src, tree):
-    f = find_def(tree, 'ionic_strength')
-    calls = [c for c in ast.walk(f) if isinstance(c, ast.Call) and isinstance(c.func, ast.Name) and c.func.id == 'allclose']
-    if len(calls) != 1:
-        raise ExtractError('ionic_strength: expected exactly one call of allclose')
-    c = calls[0]
-    kws = {k.arg: k.value for k in c.keywords}
-    if (len(c.args) != 2 or set(kws) != {'atol'} or ' '.join(seg(src, c.args[0]).split()) != 'net'
-            or ' '.join(seg(src, c.args[1]).split()) != 'tot * 0'):
-        raise ExtractError('ionic_strength: allclose call is not `allclose(net, tot * 0, atol=...)`')
-    at = kws['atol']
-    if not (isinstance(at, ast.BinOp) and isinstance(at.op, ast.Mult) and isinstance(at.left, ast.Name) and at.left.id == 'tot'
+    an = _analyse_ionic_strength(src, tree)
+    at = an['atol']
+    if not (isinstance(at, ast.BinOp) and isinstance(at.op, ast.Mult) and isinstance(at.left, ast.Name) and at.left.id == an['T']
             and isinstance(at.right, ast.Constant) and isinstance(at.right.value, (int, float))):
-        raise ExtractError('ionic_strength: atol is not `tot * <number>`')
+        raise ExtractError('ionic_strength: atol is not `<total> * <number>`')
     atol_text = seg(src, at.right)
     usrc, utree = parse(repo, 'chempy/units.py')
     ac = [n for n in utree.body if isinstance(n, ast.FunctionDef) and n.name == 'allclose']
@@ -220,41 +212,131 @@ def _one(nodes, what):
     return nodes[0]
 
 
-def _accumulation(src, loop, acc):
-    """`for b, z in zip(molalities, charges): if <acc> is None: <acc> = E else: <acc> += E`  ->  source text of E"""
-    if not (isinstance(loop.target, ast.Tuple) and [getattr(e, 'id', None) for e in loop.target.elts] == ['b', 'z']
-            and ' '.join(seg(src, loop.iter).split()) == 'zip(molalities, charges)' and len(loop.body) == 1 and not loop.orelse):
-        raise ExtractError('ionic_strength: loop over zip(molalities, charges) changed (line %d)' % loop.lineno)
-    st = loop.body[0]
-    if not (isinstance(st, ast.If) and ' '.join(seg(src, st.test).split()) == '%s is None' % acc and len(st.body) == 1
-            and len(st.orelse) == 1 and isinstance(st.body[0], ast.Assign) and isinstance(st.orelse[0], ast.AugAssign)
-            and isinstance(st.orelse[0].op, ast.Add) and seg(src, st.body[0].targets[0]) == acc and seg(src, st.orelse[0].target) == acc):
-        raise ExtractError('ionic_strength: accumulation idiom of `%s` changed (line %d)' % (acc, st.lineno))
-    e1, e2 = seg(src, st.body[0].value), seg(src, st.orelse[0].value)
-    if ' '.join(e1.split()) != ' '.join(e2.split()):
-        raise ExtractError('ionic_strength: first term `%s` and added term `%s` of `%s` differ' % (e1, e2, acc))
-    return e1
+def _norm(src, node):
+    return ' '.join(seg(src, node).split())
+
+
+def _none_start_idiom(stmts, src):
+    """`acc = None` ... `for <target> in <iter>: if acc is None: acc = E else: acc += E` (or `acc = acc + E`) inside a statement list
+    -> list of (acc, loop node, E node).  The first and the added term must be the same expression (up to white space)."""
+    out = []
+    none_assigned = set()
+    for st in stmts:
+        if (isinstance(st, ast.Assign) and len(st.targets) == 1 and isinstance(st.targets[0], ast.Name)
+                and isinstance(st.value, ast.Constant) and st.value.value is None):
+            none_assigned.add(st.targets[0].id)
+        if not isinstance(st, ast.For) or st.orelse or len(st.body) != 1 or not isinstance(st.body[0], ast.If):
+            continue
+        br = st.body[0]
+        t = br.test
+        if isinstance(t, ast.Compare) and len(t.ops) == 1 and isinstance(t.left, ast.Name) and isinstance(t.comparators[0], ast.Constant) \
+                and t.comparators[0].value is None and isinstance(t.ops[0], (ast.Is, ast.IsNot)):
+            first, rest = (br.body, br.orelse) if isinstance(t.ops[0], ast.Is) else (br.orelse, br.body)     # if/else may be inverted
+        else:
+            continue
+        acc = t.left.id
+        if len(first) != 1 or len(rest) != 1 or not isinstance(first[0], ast.Assign) or _norm(src, first[0].targets[0]) != acc:
+            continue
+        e1 = first[0].value
+        r = rest[0]
+        if isinstance(r, ast.AugAssign) and isinstance(r.op, ast.Add) and _norm(src, r.target) == acc:
+            e2 = r.value
+        elif (isinstance(r, ast.Assign) and _norm(src, r.targets[0]) == acc and isinstance(r.value, ast.BinOp)
+              and isinstance(r.value.op, ast.Add) and _norm(src, r.value.left) == acc):
+            e2 = r.value.right
+        else:
+            continue
+        if acc not in none_assigned:
+            raise ExtractError('accumulation of `%s` (line %d) does not start from None' % (acc, st.lineno))
+        if _norm(src, e1) != _norm(src, e2):
+            raise ExtractError('first term `%s` and added term `%s` of `%s` differ' % (_norm(src, e1), _norm(src, e2), acc))
+        out.append((acc, st, e1))
+    return out
+
+
+def _sum_helpers(src, tree):
+    """module-level helpers `def h(xs): acc = None; for x in xs: <None-start idiom with the term x>; return acc` (any names)"""
+    hs = set()
+    for f in tree.body:
+        if not isinstance(f, ast.FunctionDef) or len(f.args.args) != 1 or f.args.defaults or f.args.vararg or f.args.kwarg:
+            continue
+        body = [n for n in f.body if not (isinstance(n, ast.Expr) and isinstance(n.value, ast.Constant))]
+        try:
+            found = _none_start_idiom(body, src)
+        except ExtractError:
+            continue
+        if (len(body) == 3 and len(found) == 1 and isinstance(body[2], ast.Return) and isinstance(body[2].value, ast.Name)
+                and body[2].value.id == found[0][0] and isinstance(found[0][1].iter, ast.Name)
+                and found[0][1].iter.id == f.args.args[0].arg and isinstance(found[0][1].target, ast.Name)
+                and isinstance(found[0][2], ast.Name) and found[0][2].id == found[0][1].target.id):
+            hs.add(f.name)
+    return hs
+
+
+def _accumulations(src, tree, stmts):
+    """every `acc` of the statement list that is the None-started sum of E over `for <b>, <z> in zip(molalities, charges)`, written
+    either as the explicit loop or as `acc = helper(E for <b>, <z> in zip(molalities, charges))` with a helper of `_sum_helpers`:
+    {acc: (name of b, name of z, E node)}"""
+    def pair(target, it):
+        if not (isinstance(target, ast.Tuple) and len(target.elts) == 2 and all(isinstance(e, ast.Name) for e in target.elts)
+                and _norm(src, it) == 'zip(molalities, charges)'):
+            raise ExtractError('ionic_strength: accumulation does not run over `for b, z in zip(molalities, charges)`')
+        return target.elts[0].id, target.elts[1].id
+    out = {}
+    for acc, loop, e in _none_start_idiom(stmts, src):
+        out[acc] = pair(loop.target, loop.iter) + (e,)
+    helpers = _sum_helpers(src, tree)
+    for st in stmts:
+        if (isinstance(st, ast.Assign) and len(st.targets) == 1 and isinstance(st.targets[0], ast.Name)
+                and isinstance(st.value, ast.Call) and isinstance(st.value.func, ast.Name) and st.value.func.id in helpers
+                and len(st.value.args) == 1 and not st.value.keywords
+                and isinstance(st.value.args[0], (ast.GeneratorExp, ast.ListComp)) and len(st.value.args[0].generators) == 1
+                and not st.value.args[0].generators[0].ifs):
+            g = st.value.args[0]
+            out[st.targets[0].id] = pair(g.generators[0].target, g.generators[0].iter) + (g.elt,)
+    return out
+
+
+def _analyse_ionic_strength(src, tree):
+    """the data flow of ionic_strength, independent of variable names and of how the two sums are spelled:
+    total T (top level) and net N (inside `if warn:`) accumulations, `return R(T)`, `if not allclose(N, REF(T), atol=ATOL(T)): warn`"""
+    f = find_def(tree, 'ionic_strength')
+    top = _accumulations(src, tree, f.body)
+    warn_if = _one([n for n in f.body if isinstance(n, ast.If) and _norm(src, n.test) == 'warn' and not n.orelse], '`if warn:` block')
+    inner = _accumulations(src, tree, warn_if.body)
+    ret = _one([n for n in f.body if isinstance(n, ast.Return)], 'return')
+    if f.body[-1] is not ret:
+        raise ExtractError('ionic_strength: the return is not the last statement')
+    tests = [n for n in warn_if.body if isinstance(n, ast.If)]
+    test = _one(tests, 'neutrality test in the warn block')
+    t = test.test
+    if isinstance(t, ast.UnaryOp) and isinstance(t.op, ast.Not):
+        call, warn_body, other = t.operand, test.body, test.orelse
+    else:                                                              # `if allclose(...): pass else: warn`
+        call, warn_body, other = t, test.orelse, [n for n in test.body if not isinstance(n, ast.Pass)]
+    if not (isinstance(call, ast.Call) and getattr(call.func, 'id', None) == 'allclose' and len(warn_body) == 1 and not other
+            and _norm(src, warn_body[0]).startswith('warnings.warn(')):
+        raise ExtractError('ionic_strength: neutrality test is no longer `if not allclose(...): warnings.warn(...)`')
+    kws = {k.arg: k.value for k in call.keywords}
+    if len(call.args) != 2 or set(kws) != {'atol'} or not isinstance(call.args[0], ast.Name) or call.args[0].id not in inner:
+        raise ExtractError('ionic_strength: allclose is not called as allclose(<net sum>, <ref>, atol=<atol>)')
+    N = call.args[0].id
+    used = lambda node: {n.id for n in ast.walk(node) if isinstance(n, ast.Name)}
+    cand = [v for v in top if v in used(ret.value)]
+    T = _one(cand, 'top-level sum used by the return value')
+    for node, what in ((ret.value, 'return value'), (call.args[1], 'reference of allclose'), (kws['atol'], 'atol')):
+        if used(node) - {T}:
+            raise ExtractError('ionic_strength: %s depends on more than the total sum (%s)' % (what, ', '.join(sorted(used(node) - {T}))))
+    if len(top) != 1 or len(inner) != 1:
+        raise ExtractError('ionic_strength: expected one sum at top level and one in the warn block')
+    return {'T': T, 'N': N, 'tot': top[T], 'net': inner[N], 'ret': ret.value, 'ref': call.args[1], 'atol': kws['atol']}
 
 
 def _ionic_strength_pieces(repo, src, tree):
     """python source of small straight-line functions holding the expressions of ionic_strength and of the scalar path of
     chempy.units.allclose, verbatim from the source text (translated afterwards by pyfn2lean)"""
-    f = find_def(tree, 'ionic_strength')
-    loops = [n for n in f.body if isinstance(n, ast.For)]
-    warn_if = _one([n for n in f.body if isinstance(n, ast.If) and ' '.join(seg(src, n.test).split()) == 'warn'], '`if warn:` block')
-    loops_w = [n for n in warn_if.body if isinstance(n, ast.For)]
-    e_tot = _accumulation(src, _one(loops, 'top-level loop'), 'tot')
-    e_net = _accumulation(src, _one(loops_w, 'loop in the warn block'), 'net')
-    ret = _one([n for n in f.body if isinstance(n, ast.Return)], 'return')
-    test = _one([n for n in warn_if.body if isinstance(n, ast.If)], '`if not allclose(...)`')
-    if not (isinstance(test.test, ast.UnaryOp) and isinstance(test.test.op, ast.Not) and isinstance(test.test.operand, ast.Call)
-            and getattr(test.test.operand.func, 'id', None) == 'allclose' and len(test.body) == 1 and not test.orelse
-            and seg(src, test.body[0]).startswith('warnings.warn(')):
-        raise ExtractError('ionic_strength: neutrality test is no longer `if not allclose(...): warnings.warn(...)`')
-    call = test.test.operand
-    kws = {k.arg: k.value for k in call.keywords}
-    if len(call.args) != 2 or set(kws) != {'atol'} or ' '.join(seg(src, call.args[0]).split()) != 'net':
-        raise ExtractError('ionic_strength: allclose call changed')
+    an = _analyse_ionic_strength(src, tree)
+    T = an['T']
     usrc, utree = parse(repo, 'chempy/units.py')
     ac = _one([n for n in utree.body if isinstance(n, ast.FunctionDef) and n.name == 'allclose'], 'units.allclose')
     body = [n for n in ac.body if not (isinstance(n, ast.Expr) and isinstance(n.value, ast.Constant))]
@@ -278,12 +360,13 @@ def _ionic_strength_pieces(repo, src, tree):
             and isinstance(t2.handlers[0].body[0], ast.Return)):
         raise ExtractError('units.allclose: scalar return path changed')
     ret_text = ' '.join(seg(usrc, t2.handlers[0].body[0].value).split())
+    (b1, z1, e_tot), (b2, z2, e_net) = an['tot'], an['net']
     py = '\n'.join([
-        'def is_term_tot(b, z):\n    return %s\n' % e_tot,
-        'def is_term_net(b, z):\n    return %s\n' % e_net,
-        'def is_result(tot):\n    return %s\n' % seg(src, ret.value),
-        'def is_neutral_ref(tot):\n    return %s\n' % seg(src, call.args[1]),
-        'def is_neutral_atol(tot):\n    return %s\n' % seg(src, kws['atol']),
+        'def is_term_tot(%s, %s):\n    return %s\n' % (b1, z1, seg(src, e_tot)),
+        'def is_term_net(%s, %s):\n    return %s\n' % (b2, z2, seg(src, e_net)),
+        'def is_result(%s):\n    return %s\n' % (T, seg(src, an['ret'])),
+        'def is_neutral_ref(%s):\n    return %s\n' % (T, seg(src, an['ref'])),
+        'def is_neutral_atol(%s):\n    return %s\n' % (T, seg(src, an['atol'])),
         'def allclose_d(a, b):\n    return %s\n' % seg(usrc, d_assign.value),
         'def allclose_lim(a, rtol, atol):\n    lim = %s\n    lim = lim + (%s)\n    return lim\n'
         % (seg(usrc, lim_assign.value), seg(usrc, lim_if.body[0].value)),
